@@ -275,12 +275,14 @@ class MailboxData(MailboxDataInterface[Message]):
         maildir = self._maildir
         email_id = ObjectId.random_email_id()
         thread_id = ObjectId.random_thread_id()
-        async with self.messages_lock.write_lock():
-            maildir_msg = Message.to_maildir(append_msg, recent,
-                                             self.maildir_flags)
-            key = maildir.add(maildir_msg)
-            filename = key + ':' + maildir_msg.get_info()
+        # the file appears while the UID list is locked, so that nobody else
+        # can give it a UID before its record is written
         async with UidList.with_write(self._path) as uidl:
+            async with self.messages_lock.write_lock():
+                maildir_msg = Message.to_maildir(append_msg, recent,
+                                                 self.maildir_flags)
+                key = maildir.add(maildir_msg)
+                filename = key + ':' + maildir_msg.get_info()
             fields = {'E': str(email_id), 'T': str(thread_id)}
             new_rec = Record(uidl.next_uid, fields, filename)
             uidl.next_uid += 1
@@ -300,10 +302,10 @@ class MailboxData(MailboxDataInterface[Message]):
             return None
         copy_msg = MaildirMessage(maildir_msg)
         copy_msg.set_subdir('new' if recent else 'cur')
-        async with destination.messages_lock.write_lock():
-            dest_key = dest_maildir.add(copy_msg)
-            dest_filename = dest_key + ':' + copy_msg.get_info()
         async with UidList.with_write(destination._path) as uidl:
+            async with destination.messages_lock.write_lock():
+                dest_key = dest_maildir.add(copy_msg)
+                dest_filename = dest_key + ':' + copy_msg.get_info()
             new_rec = Record(uidl.next_uid, record.fields, dest_filename)
             uidl.next_uid += 1
             uidl.set(new_rec)
@@ -320,32 +322,33 @@ class MailboxData(MailboxDataInterface[Message]):
                 return None
         dest_subdir = 'new' if recent else 'cur'
         same = destination is self
-        async with AsyncExitStack() as stack:
-            await stack.enter_async_context(
-                destination.messages_lock.write_lock())
-            if not same:
-                await stack.enter_async_context(
-                    self.messages_lock.write_lock())
-            try:
-                new_filename = maildir.move_message(
-                    rec.key, dest_maildir, dest_subdir)
-            except (KeyError, FileNotFoundError):
-                return None
-        if not same:
-            # the file has left this maildir and keeps its name: forget its
-            # record, or moving it back would revive the expunged UID
-            async with UidList.with_write(self._path) as uidl:
-                try:
-                    uidl.remove(uid)
-                except KeyError:
-                    pass
+        # the file arrives while the destination's UID list is locked, so
+        # that nobody else can give it a UID before its record is written
         async with UidList.with_write(destination._path) as uidl:
+            async with AsyncExitStack() as stack:
+                await stack.enter_async_context(
+                    destination.messages_lock.write_lock())
+                if not same:
+                    await stack.enter_async_context(
+                        self.messages_lock.write_lock())
+                try:
+                    new_filename = maildir.move_message(
+                        rec.key, dest_maildir, dest_subdir)
+                except (KeyError, FileNotFoundError):
+                    return None
             if same:
                 # the file stays in this maildir, only its UID changes
                 uidl.remove(uid)
             new_rec = Record(uidl.next_uid, rec.fields, new_filename)
             uidl.next_uid += 1
             uidl.set(new_rec)
+        if not same:
+            # the file has left this maildir: forget its record
+            async with UidList.with_write(self._path) as uidl:
+                try:
+                    uidl.remove(uid)
+                except KeyError:
+                    pass
         return new_rec.uid
 
     async def get(self, uid: int, cached_msg: CachedMessage) -> Message:
@@ -406,8 +409,8 @@ class MailboxData(MailboxDataInterface[Message]):
 
     async def cleanup(self) -> None:
         self._maildir.clean()
-        keys = await self._get_keys()
         async with UidList.with_write(self._path) as uidl:
+            keys = await self._get_keys()
             for rec in list(uidl.records):
                 key = rec.key
                 info = keys.get(key)
@@ -436,8 +439,8 @@ class MailboxData(MailboxDataInterface[Message]):
                         email_id, thread_id, self.maildir_flags)
 
     async def reset(self) -> MailboxData:
-        keys = await self._get_keys()
         async with UidList.with_write(self._path) as uidl:
+            keys = await self._get_keys()
             for rec in uidl.records:
                 keys.pop(rec.key, None)
             for key, info in keys.items():
